@@ -207,7 +207,21 @@ def legals_body(ctx, key, piece, R):
         src = bb(l['source'], an) if l['source'] is not None else None
         kind = 'unpinned' if src == unp else ('pinned' if src == pin else 'other')
         res['loops'].append((l, kind, src))
+    exhaustive(ctx, R, s, key, loops)
     return res
+
+
+def exhaustive(ctx, R, s, key, loops):
+    """every source/destination loop of a generator body runs to the exhaustion of its set: a `break` or `return`
+    inside it drops the moves of the remaining pieces"""
+    for l in loops:
+        early = sorted({a for a, _ in loop_exits(s, l) if a not in ctrl_blocks(s, l)})
+        w = where(s.body, l['next']['line'])
+        if early:
+            ctx.violation(R, key + ':early-exit', 'the loop over %s is left before the set is exhausted (exit from block(s) %s): moves of the '
+                          'remaining squares are never generated' % (sh(bb(l['source'], ctx.an()), 100) if l['source'] is not None else '?', early), w)
+        else:
+            ctx.ok(R, '%s: loop over %s runs to exhaustion' % (key, sh(bb(l['source'], ctx.an()), 80) if l['source'] is not None else '?'), w)
 
 
 def push_info(ctx, s, c, loops):
@@ -443,6 +457,7 @@ def king(ctx):
         ctx.violation(R, key + ':push-count', 'king legals pushes %d entries (expected one)' % len(pushes), w)
         return
     loops = for_loops(s)
+    exhaustive(ctx, R, s, key, loops)
     # filter loop over the pseudo-legal destinations
     base = mk('&', [call('magic::get_king_moves', ksq), ('param', 3)])
     pl = call('<movegen::piece_type::KingType as %s>::pseudo_legals' % PT, ksq, STM, ('field', B, 'combined'), ('param', 3))
